@@ -1,9 +1,14 @@
 #!/bin/bash
-# usage: try_mutant.sh <patch> <ID> [secs]  -- applies patch to /repo, runs the check into a scratch VERIF_DIR, reverts
+# usage: try_mutant.sh <patch> <ID> [secs]
+# Applies the patch to a scratch worktree of /repo HEAD (never to /repo itself, so that
+# several of these can run side by side), runs the check against it with VERIF_REPO
+# into a scratch VERIF_DIR, and removes both.
 P="$1"; ID="$2"; SECS="${3:-10}"
-git -C /repo apply "$P" || { echo "APPLY FAILED $P"; exit 9; }
+WT=$(mktemp -d /tmp/mutwt-XXXX); rmdir $WT
+git -C /repo worktree add -q --detach $WT HEAD || { echo "WORKTREE FAILED"; exit 9; }
+git -C $WT apply "$P" || { echo "APPLY FAILED $P"; git -C /repo worktree remove --force $WT; exit 9; }
 OUT=$(mktemp -d /tmp/vmut-XXXX)
 cp /verif/known_findings.json $OUT/ 2>/dev/null
-VERIF_DIR=$OUT VERIF_SECS=$SECS /verif/run.sh check "$ID" quick 2>&1 | grep -E "^(VIOLATION|FATAL|OK|SUMMARY|KNOWN)" | cut -c1-${WIDTH:-400}
-git -C /repo checkout -- .
+VERIF_REPO=$WT VERIF_DIR=$OUT VERIF_SECS=$SECS /verif/run.sh check "$ID" quick 2>&1 | grep -E "^(VIOLATION|FATAL|OK|SUMMARY|KNOWN)" | cut -c1-${WIDTH:-400}
+git -C /repo worktree remove --force $WT
 rm -rf $OUT
